@@ -232,6 +232,103 @@ def hist_amp(cases, outs):
     return h
 
 
+def _amp_scan(rows, srv, cli, foreign=None, ledger=False):
+    """python mirror of amp_scan for client address [cli] on an already filtered / re-marked log.
+    foreign: another client address whose datagrams delivered to the server before the marker are
+    credited to [cli] as well (what the server does before the handshake is confirmed);
+    ledger: judge a send by the implementation's own ledger (allowance += 3 * received, saturating
+    subtraction on send, blocked only at allowance 0) instead of sent < 3 * received.
+    returns (amplification clause ok, everything else ok)"""
+    recv = sent = allow = 0
+    valid = False
+    amp_ok = other_ok = True
+    seen = []
+    for e in rows:
+        t, k, s, d, ln, fb, cl = e
+        if k == 0 and s == srv:
+            if d == cli:
+                if not valid:
+                    ok = (allow > 0) if ledger else (sent < 3 * recv)
+                    amp_ok &= ok
+            else:
+                trig = next((x for x in reversed(seen) if (x[1] == 0 and x[2] == srv and x[3] == d) or (x[1] == 1 and x[3] == srv and x[2] == d)), None)
+                if trig is None or not (trig[1] == 1 and trig[3] == srv):
+                    other_ok = False
+                elif cl == 3:
+                    other_ok &= trig[4] >= 1200 and trig[6] != 3
+                else:
+                    other_ok &= ln < trig[4]
+        if k == 0 and s == cli and cl == 1:
+            other_ok &= ln >= 1200
+        other_ok &= ln >= 0
+        seen.append(e)
+        if k == 1 and d == srv and (s == cli or (foreign is not None and s == foreign and not valid)):
+            recv += ln
+            allow += 3 * ln
+        if k == 0 and s == srv and d == cli:
+            sent += ln
+            allow = max(0, allow - ln)
+        if k == 2:
+            valid = True
+    return amp_ok, other_ok
+
+
+def classify_amp(p):
+    """known classes of e2e_amp judge failures (None = not known).
+
+    amp_credit_from_other_address_during_handshake: before the handshake is confirmed the server
+    attributes a datagram that arrives from another address to the connection's only path and
+    credits its bytes to the ORIGINAL address (path::Manager::on_datagram_received picks the active
+    path), so it sends to the original address beyond 3 x the bytes received from that address;
+    with the other address's datagrams counted as credit the 3 x rule holds.
+    amp_overshoot_forgiven (F2): every send to the unvalidated address starts with a positive
+    allowance in the implementation's ledger (3 x received added, saturating subtraction on send),
+    but bytes sent had already reached 3 x bytes received."""
+    try:
+        if p.get("component") != "e2e_amp" or p["impl"].startswith("!"):
+            return None
+        v = _parse(p["impl"])
+        if v[6] != 0:
+            return None
+        srv, cli, cli2 = v[1], v[2], v[9]
+        rows = [v[10 + 7 * i:17 + 7 * i] for i in range(v[8])]
+        log1 = [r for r in rows if cli2 == -1 or cli2 not in (r[2], r[3])]
+        if cli2 != -1:
+            log2 = []
+            for r in rows:
+                if cli in (r[2], r[3]) and r[1] != 2:
+                    continue
+                r = list(r)
+                if r[1] == 3 and r[2] == cli2:
+                    r[1] = 2
+                elif r[1] == 2:
+                    r[1] = 9
+                log2.append(r)
+            a2, o2 = _amp_scan(log2, srv, cli2)
+            if not (a2 and o2):
+                return None
+        a1, o1 = _amp_scan(log1, srv, cli)
+        if a1 or not o1:
+            return None
+        # the only failing clause is the 3 x rule towards the original client address
+        if cli2 != -1:
+            logf = [r for r in rows if not (r[1] == 0 and cli2 in (r[2], r[3])) and not (r[1] == 0 and r[2] == srv and r[3] == cli2)]
+            logf = [r for r in logf if not (r[2] == srv and r[3] == cli2)]
+            af, of = _amp_scan(logf, srv, cli, foreign=cli2)
+            if af:
+                return "amp_credit_from_other_address_during_handshake"
+        al, _ = _amp_scan(log1, srv, cli, ledger=True)
+        if al:
+            return "amp_overshoot_forgiven"
+        if cli2 != -1:
+            afl, _ = _amp_scan(logf, srv, cli, foreign=cli2, ledger=True)
+            if afl:
+                return "amp_credit_from_other_address_during_handshake"
+        return None
+    except Exception:
+        return None
+
+
 # ---------------------------------------------------------------------------------------------
 # e2e_inject  (C06)
 # case: [seed, inject_pm, inject_kinds_mask, inject_from_ms, inject_len_ms, n_bidi, bytes, delay_ms,
@@ -775,6 +872,7 @@ E2E_COMPONENTS = {
         "gen": gen_amp, "fixed": fixed_amp, "quick": 60, "thorough": 1500,
         "shard_lines": 1, "line_timeout": 300,
         "valid": valid_amp, "nontrivial": nontrivial_amp, "histogram": hist_amp,
+        "classify": classify_amp,
     },
     "e2e_pn": {
         "name": "e2e_pn", "harness": ("h_e2e", "E2E"), "ocaml": "E2E", "model": False,
